@@ -40,7 +40,7 @@ var containers = []containerKind{
 		build: func(rec *gen.Rec, lay gen.Layout, bo binary.ByteOrder, s int) *gen.Doc {
 			return gen.EncodeTIFF(rec, lay, bo, gen.AllDirs)
 		}},
-	{name: "JPEG", imageType: "image/jpeg", nSurround: 9,
+	{name: "JPEG", imageType: "image/jpeg", nSurround: 12,
 		entries: []entryPoint{{"imagemeta.Decode", imagemeta.Decode}, {"imagemeta.DecodeJPEG", imagemeta.DecodeJPEG}},
 		build: func(rec *gen.Rec, lay gen.Layout, bo binary.ByteOrder, s int) *gen.Doc {
 			t := gen.EncodeTIFF(rec, lay, bo, gen.AllDirs)
@@ -63,6 +63,12 @@ var containers = []containerKind{
 				segs = []gen.Seg{gen.SegAPPn(3, 5000), gen.SegPhotoshop(), gen.SegDRI(), gen.SegExif(t)}
 			case 7:
 				segs = []gen.Seg{gen.SegJFXX(), gen.SegXMPExt(), gen.SegExif(t), gen.SegSOF(0xC2)}
+			case 9, 10, 11: // stray bytes between the segments, at lengths around the scanner's 64-byte look-ahead
+				e := gen.SegExif(t)
+				e.Junk = []int{63, 127, 64}[s-9]
+				x2 := gen.SegXMP([]byte("<x:xmpmeta xmlns:x=\"adobe:ns:meta/\"><rdf:RDF/></x:xmpmeta>"))
+				x2.Junk = []int{0, 63, 191}[s-9]
+				segs = []gen.Seg{gen.SegJFIF(), e, x2}
 			case 8: // fill bytes before markers
 				e := gen.SegExif(t)
 				e.Fill = 2
